@@ -352,7 +352,7 @@ fn c10_shard(ctx: &Ctx, out: &mut ShardOut) {
     let pool = Pool::new();
     let b = budget_for(ctx.tier, ctx.shard_seed(81));
     C10.run(ctx, &pool, 10, ctx.share(ctx.by_tier(320, 3_000)) as u32, &b, out);
-    let lb = Budget { single: 0, double: 0, coarse2: 0, tapes: ctx.by_tier(40, 200) as usize, tape_seed: ctx.shard_seed(91), triple: 0 };
+    let lb = Budget { single: 0, double: 0, coarse2: 0, tapes: ctx.by_tier(40, 200) as usize, tape_seed: ctx.shard_seed(91), triple: 0, stagger: 0 };
     C10L.run(ctx, &pool, 18, ctx.share(ctx.by_tier(160, 4_000)) as u32, &lb, out);
     C10H.run(ctx, &pool, 19, ctx.share(ctx.by_tier(160, 3_000)) as u32, &super::concchecks::helpers_budget(ctx.tier, ctx.shard_seed(97)), out);
     C10T.run(ctx, &pool, 20, ctx.share(ctx.by_tier(128, 2_000)) as u32, &b, out);
@@ -376,7 +376,7 @@ fn c10_shard(ctx: &Ctx, out: &mut ShardOut) {
 }
 fn c10_replay(sub: &str, case: &Value) -> Result<(), CaseFail> {
     match sub {
-        "resize-long" => C10L.replay(&Pool::new(), case, &Budget { single: 0, double: 0, coarse2: 0, tapes: 200, tape_seed: 1, triple: 0 }),
+        "resize-long" => C10L.replay(&Pool::new(), case, &Budget { single: 0, double: 0, coarse2: 0, tapes: 200, tape_seed: 1, triple: 0, stagger: 0 }),
         "resize-helpers" => C10H.replay(&Pool::new(), case, &super::concchecks::helpers_budget(Tier::Thorough, 1)),
         "resize-treemove" => C10T.replay(&Pool::new(), case, &budget_for(Tier::Thorough, 1)),
         "stamps" => check_stamps().map(|_| ()).map_err(|m| CaseFail { prop: "C10".into(), msg: format!("[C10] {}", m) }),
@@ -538,8 +538,8 @@ pub const C12H: ConcCheck = ConcCheck { sub: "probe-helpers", mix: Mix::Helpers,
 fn probe_budget(tier: Tier, seed: u64) -> Budget {
     // the probes already visit every step of the base schedule; preemptions add writer/writer interleavings
     match tier {
-        Tier::Quick => Budget { single: 12, double: 0, coarse2: 40, tapes: 4, tape_seed: seed, triple: 0 },
-        Tier::Thorough => Budget { single: 150, double: 40, coarse2: 75, tapes: 20, tape_seed: seed, triple: 0 },
+        Tier::Quick => Budget { single: 12, double: 0, coarse2: 40, tapes: 4, tape_seed: seed, triple: 0, stagger: 0 },
+        Tier::Thorough => Budget { single: 150, double: 40, coarse2: 75, tapes: 20, tape_seed: seed, triple: 0, stagger: 0 },
     }
 }
 
@@ -550,7 +550,7 @@ fn c12_shard(ctx: &Ctx, out: &mut ShardOut) {
     C12R.run(ctx, &pool, 13, ctx.share(ctx.by_tier(64, 300)) as u32, &b, out);
     C12C.run(ctx, &pool, 14, ctx.share(ctx.by_tier(48, 200)) as u32, &b, out);
     C12T.run(ctx, &pool, 15, ctx.share(ctx.by_tier(48, 200)) as u32, &b, out);
-    let hb = Budget { single: 40, double: 0, coarse2: 20, tapes: 4, tape_seed: ctx.shard_seed(83), triple: ctx.by_tier(30, 300) as usize };
+    let hb = Budget { single: 40, double: 0, coarse2: 20, tapes: 4, tape_seed: ctx.shard_seed(83), triple: ctx.by_tier(30, 300) as usize, stagger: 0 };
     C12H.run(ctx, &pool, 16, ctx.share(ctx.by_tier(96, 600)) as u32, &hb, out);
     out.exhaustive_parts.push("for each executed schedule: every yield point of every writer is a suspension point".into());
 }
@@ -561,7 +561,7 @@ fn c12_replay(sub: &str, case: &Value) -> Result<(), CaseFail> {
         "probe-resize" => C12R.replay(&pool, case, &b),
         "probe-readers" => C12C.replay(&pool, case, &b),
         "probe-treemove" => C12T.replay(&pool, case, &b),
-        "probe-helpers" => C12H.replay(&pool, case, &Budget { single: 200, double: 0, coarse2: 100, tapes: 20, tape_seed: 1, triple: 300 }),
+        "probe-helpers" => C12H.replay(&pool, case, &Budget { single: 200, double: 0, coarse2: 100, tapes: 20, tape_seed: 1, triple: 300, stagger: 0 }),
         _ => C12.replay(&pool, case, &b),
     }
 }
@@ -641,27 +641,27 @@ fn c07_shard(ctx: &Ctx, out: &mut ShardOut) {
     C07B.run(ctx, &pool, 7, ctx.share(ctx.by_tier(160, 1_500)) as u32, &b, out);
     C07R.run(ctx, &pool, 8, ctx.share(ctx.by_tier(160, 1_500)) as u32, &b, out);
     let pb = match ctx.tier {
-        Tier::Quick => Budget { single: 40, double: 8, coarse2: 40, tapes: 4, tape_seed: ctx.shard_seed(84), triple: 0 },
-        Tier::Thorough => Budget { single: 400, double: 400, coarse2: 200, tapes: 20, tape_seed: ctx.shard_seed(84), triple: 0 },
+        Tier::Quick => Budget { single: 40, double: 8, coarse2: 40, tapes: 4, tape_seed: ctx.shard_seed(84), triple: 0, stagger: 0 },
+        Tier::Thorough => Budget { single: 400, double: 400, coarse2: 200, tapes: 20, tape_seed: ctx.shard_seed(84), triple: 0, stagger: 0 },
     };
     C07C.run(ctx, &pool, 9, ctx.share(ctx.by_tier(96, 400)) as u32, &pb, out);
     C07D.run(ctx, &pool, 10, ctx.share(ctx.by_tier(64, 300)) as u32, &pb, out);
     C07T.run(ctx, &pool, 14, ctx.share(ctx.by_tier(48, 300)) as u32, &pb, out);
     super::concchecks::set_run(ctx, &pool, out, "iter-set", true, 400, 6_000);
-    let hb = Budget { single: 40, double: 0, coarse2: 20, tapes: 4, tape_seed: ctx.shard_seed(90), triple: ctx.by_tier(30, 300) as usize };
+    let hb = Budget { single: 40, double: 0, coarse2: 20, tapes: 4, tape_seed: ctx.shard_seed(90), triple: ctx.by_tier(30, 300) as usize, stagger: 0 };
     C07H.run(ctx, &pool, 15, ctx.share(ctx.by_tier(128, 800)) as u32, &hb, out);
     let db = match ctx.tier {
-        Tier::Quick => Budget { single: 30, double: 0, coarse2: 260, tapes: 2, tape_seed: ctx.shard_seed(88), triple: 0 },
-        Tier::Thorough => Budget { single: 300, double: 300, coarse2: 3000, tapes: 20, tape_seed: ctx.shard_seed(88), triple: 0 },
+        Tier::Quick => Budget { single: 30, double: 0, coarse2: 260, tapes: 2, tape_seed: ctx.shard_seed(88), triple: 0, stagger: 0 },
+        Tier::Thorough => Budget { single: 300, double: 300, coarse2: 3000, tapes: 20, tape_seed: ctx.shard_seed(88), triple: 0, stagger: 0 },
     };
     C07E.run(ctx, &pool, 11, ctx.share(ctx.by_tier(48, 300)) as u32, &db, out);
     C07F.run(ctx, &pool, 12, ctx.share(ctx.by_tier(48, 1_000)) as u32, &b, out);
-    let lb = Budget { single: 0, double: 0, coarse2: 0, tapes: ctx.by_tier(16, 100) as usize, tape_seed: ctx.shard_seed(97), triple: 0 };
+    let lb = Budget { single: 0, double: 0, coarse2: 0, tapes: ctx.by_tier(16, 100) as usize, tape_seed: ctx.shard_seed(97), triple: 0, stagger: 0 };
     C07L.run(ctx, &pool, 13, ctx.share(ctx.by_tier(96, 2_000)) as u32, &lb, out);
 }
 fn c07_replay(sub: &str, case: &Value) -> Result<(), CaseFail> {
     let b = budget_for(Tier::Thorough, 1);
-    let pb = Budget { single: 400, double: 400, coarse2: 200, tapes: 20, tape_seed: 1, triple: 0 };
+    let pb = Budget { single: 400, double: 400, coarse2: 200, tapes: 20, tape_seed: 1, triple: 0, stagger: 0 };
     match sub {
         "iter-seq" => {
             let c: IterCase = serde_json::from_value(case.clone()).map_err(|e| CaseFail { prop: "C07".into(), msg: format!("bad replay file: {}", e) })?;
@@ -672,10 +672,10 @@ fn c07_replay(sub: &str, case: &Value) -> Result<(), CaseFail> {
         "iter-probe-resize" => C07D.replay(&Pool::new(), case, &pb),
         "iter-probe-treemove" => C07T.replay(&Pool::new(), case, &pb),
         "iter-set" => super::concchecks::c01_set_replay(&Pool::new(), case),
-        "iter-probe-helpers" => C07H.replay(&Pool::new(), case, &Budget { single: 200, double: 0, coarse2: 100, tapes: 20, tape_seed: 1, triple: 300 }),
-        "iter-probe-drain" => C07E.replay(&Pool::new(), case, &Budget { single: 300, double: 300, coarse2: 3000, tapes: 20, tape_seed: 1, triple: 0 }),
+        "iter-probe-helpers" => C07H.replay(&Pool::new(), case, &Budget { single: 200, double: 0, coarse2: 100, tapes: 20, tape_seed: 1, triple: 300, stagger: 0 }),
+        "iter-probe-drain" => C07E.replay(&Pool::new(), case, &Budget { single: 300, double: 300, coarse2: 3000, tapes: 20, tape_seed: 1, triple: 0, stagger: 0 }),
         "iter-drain" => C07F.replay(&Pool::new(), case, &b),
-        "iter-long" => C07L.replay(&Pool::new(), case, &Budget { single: 0, double: 0, coarse2: 0, tapes: 100, tape_seed: 1, triple: 0 }),
+        "iter-long" => C07L.replay(&Pool::new(), case, &Budget { single: 0, double: 0, coarse2: 0, tapes: 100, tape_seed: 1, triple: 0, stagger: 0 }),
         _ => C07B.replay(&Pool::new(), case, &b),
     }
 }
@@ -970,6 +970,7 @@ pub const C03H: ConcCheck = ConcCheck { sub: "refs-helpers", mix: Mix::Helpers, 
 pub const C03A: ConcCheck = ConcCheck { sub: "refs-retain", mix: Mix::Retain, ..C03 };
 pub const C03D: ConcCheck = ConcCheck { sub: "refs-drain", mix: Mix::Drain, ..C03 };
 pub const C03U: ConcCheck = ConcCheck { sub: "refs-compute", mix: Mix::Compute, ..C03 };
+pub const C03W: ConcCheck = ConcCheck { sub: "refs-crowd", mix: Mix::Crowd, max_threads: 130, ..C03 };
 pub const C03T: ConcCheck = ConcCheck { sub: "refs-treemove", mix: Mix::TreeMove, max_threads: 3, max_ops: 3, ..C03 };
 
 const C03_OR: crate::seq::Oracles = crate::seq::Oracles { returns: true, quiescent: false, ledger: true, canary: true, capacity: false, cmp_bound: false, growth: false };
@@ -1029,7 +1030,7 @@ fn c03_shard(ctx: &Ctx, out: &mut ShardOut) {
     C03R.run(ctx, &pool, 5, ctx.share(ctx.by_tier(96, 1_000)) as u32, &b, out);
     let pb = probe_budget(ctx.tier, ctx.shard_seed(86));
     C03P.run(ctx, &pool, 6, ctx.share(ctx.by_tier(64, 400)) as u32, &pb, out);
-    let lb = Budget { single: 0, double: 0, coarse2: 0, tapes: ctx.by_tier(16, 100) as usize, tape_seed: ctx.shard_seed(95), triple: 0 };
+    let lb = Budget { single: 0, double: 0, coarse2: 0, tapes: ctx.by_tier(16, 100) as usize, tape_seed: ctx.shard_seed(95), triple: 0, stagger: 0 };
     C03L.run(ctx, &pool, 7, ctx.share(ctx.by_tier(64, 1_500)) as u32, &lb, out);
     C03M.run(ctx, &pool, 8, ctx.share(ctx.by_tier(64, 1_500)) as u32, &lb, out);
     C03T.run(ctx, &pool, 9, ctx.share(ctx.by_tier(96, 1_000)) as u32, &b, out);
@@ -1037,6 +1038,8 @@ fn c03_shard(ctx: &Ctx, out: &mut ShardOut) {
     C03D.run(ctx, &pool, 12, ctx.share(ctx.by_tier(64, 1_000)) as u32, &b, out);
     C03U.run(ctx, &pool, 13, ctx.share(ctx.by_tier(64, 1_000)) as u32, &b, out);
     C03H.run(ctx, &pool, 10, ctx.share(ctx.by_tier(64, 800)) as u32, &super::concchecks::helpers_budget(ctx.tier, ctx.shard_seed(98)), out);
+    drop(pool);
+    C03W.run(ctx, &Pool::with_workers(super::concchecks::CROWD_WORKERS), 14, ctx.share(ctx.by_tier(64, 1_000)) as u32, &super::concchecks::crowd_budget(ctx.tier, ctx.shard_seed(99)), out);
     let _ = crate::alloc::drain_and_check();
     crate::alloc::enable(false);
 }
@@ -1053,11 +1056,12 @@ fn c03_replay(sub: &str, case: &Value) -> Result<(), CaseFail> {
         "refs-retain" => C03A.replay(&Pool::new(), case, &b),
         "refs-drain" => C03D.replay(&Pool::new(), case, &b),
         "refs-compute" => C03U.replay(&Pool::new(), case, &b),
+        "refs-crowd" => C03W.replay(&Pool::with_workers(super::concchecks::CROWD_WORKERS), case, &super::concchecks::crowd_budget(Tier::Thorough, 1)),
         "refs-helpers" => C03H.replay(&Pool::new(), case, &super::concchecks::helpers_budget(Tier::Thorough, 1)),
         "refs-resize" => C03R.replay(&Pool::new(), case, &b),
         "refs-probe" => C03P.replay(&Pool::new(), case, &probe_budget(Tier::Thorough, 1)),
-        "refs-long-readers" => C03M.replay(&Pool::new(), case, &Budget { single: 0, double: 0, coarse2: 0, tapes: 100, tape_seed: 1, triple: 0 }),
-        "refs-long" => C03L.replay(&Pool::new(), case, &Budget { single: 0, double: 0, coarse2: 0, tapes: 100, tape_seed: 1, triple: 0 }),
+        "refs-long-readers" => C03M.replay(&Pool::new(), case, &Budget { single: 0, double: 0, coarse2: 0, tapes: 100, tape_seed: 1, triple: 0, stagger: 0 }),
+        "refs-long" => C03L.replay(&Pool::new(), case, &Budget { single: 0, double: 0, coarse2: 0, tapes: 100, tape_seed: 1, triple: 0, stagger: 0 }),
         _ => C03.replay(&Pool::new(), case, &b),
     };
     crate::alloc::enable(false);
@@ -1103,7 +1107,7 @@ fn c15_shard(ctx: &Ctx, out: &mut ShardOut) {
     C15.run(ctx, &pool, 15, ctx.share(ctx.by_tier(1600, 24_000)) as u32, &b, out);
     C15R.run(ctx, &pool, 16, ctx.share(ctx.by_tier(320, 8_000)) as u32, &b, out);
     C15I.run(ctx, &pool, 17, ctx.share(ctx.by_tier(320, 8_000)) as u32, &b, out);
-    let lb = Budget { single: 0, double: 0, coarse2: 0, tapes: ctx.by_tier(16, 100) as usize, tape_seed: ctx.shard_seed(96), triple: 0 };
+    let lb = Budget { single: 0, double: 0, coarse2: 0, tapes: ctx.by_tier(16, 100) as usize, tape_seed: ctx.shard_seed(96), triple: 0, stagger: 0 };
     C15L.run(ctx, &pool, 18, ctx.share(ctx.by_tier(64, 1_500)) as u32, &lb, out);
     C15T.run(ctx, &pool, 19, ctx.share(ctx.by_tier(320, 6_000)) as u32, &b, out);
     C15A.run(ctx, &pool, 21, ctx.share(ctx.by_tier(128, 3_000)) as u32, &b, out);
@@ -1121,7 +1125,7 @@ fn c15_replay(sub: &str, case: &Value) -> Result<(), CaseFail> {
         "hb-drain" => C15D.replay(&Pool::new(), case, &b),
         "hb-compute" => C15U.replay(&Pool::new(), case, &b),
         "hb-helpers" => C15H.replay(&Pool::new(), case, &super::concchecks::helpers_budget(Tier::Thorough, 1)),
-        "hb-long" => C15L.replay(&Pool::new(), case, &Budget { single: 0, double: 0, coarse2: 0, tapes: 100, tape_seed: 1, triple: 0 }),
+        "hb-long" => C15L.replay(&Pool::new(), case, &Budget { single: 0, double: 0, coarse2: 0, tapes: 100, tape_seed: 1, triple: 0, stagger: 0 }),
         _ => C15.replay(&Pool::new(), case, &b),
     }
 }
